@@ -165,9 +165,9 @@ def wf : List SI → Bool
   | .subscribe :: .lock :: r => wf r
   | _ => false
 
-/-- newest-first log: nothing but cease traces after the first cease -/
+/-- newest-first log: after the first cease nothing but cease traces — and traces of goroutines outside the wait group -/
 def LogOk : List Trace → Prop
   | [] => True
-  | t :: r => (Trace.cease ∈ r → t = .cease) ∧ LogOk r
+  | t :: r => (Trace.cease ∈ r → t = .cease ∨ t = .stray) ∧ LogOk r
 
 end Bpmn.Model.Completion
